@@ -27,9 +27,19 @@ Import ListNotations.
 Fixpoint zfact (n : nat) : Z :=
   match n with O => 1%Z | S k => (Z.of_nat n * zfact k)%Z end.
 
-(* math.comb(n, k) for 0 <= k <= n *)
+(* math.comb(n, k) for 0 <= k <= n, by the multiplicative formula
+   C(n, k) = prod_{j = 1..k'} (n - k' + j) / j  with k' = min(k, n - k): every
+   partial product is itself a binomial coefficient, so each division is exact
+   (quotients of factorials of four-digit arguments are too slow to execute). *)
+Fixpoint zcomb_loop (i : nat) (m j acc : Z) : Z :=
+  match i with
+  | O => acc
+  | S i' => zcomb_loop i' m (j + 1)%Z (acc * (m + j) / j)%Z
+  end.
+
 Definition zcomb (n k : Z) : Z :=
-  (zfact (Z.to_nat n) / (zfact (Z.to_nat k) * zfact (Z.to_nat (n - k))))%Z.
+  if ((k <? 0) || (n <? k))%Z then 0%Z
+  else let k' := Z.min k (n - k) in zcomb_loop (Z.to_nat k') (n - k')%Z 1%Z 1%Z.
 
 Inductive meth := MPdf | MProb | MCdf | MInvCdf.
 
